@@ -98,6 +98,7 @@ type Sim struct {
 	Preempt   bool
 	PreemptP  float64
 	ChunkP0   float64 // search-mode probability that a pipe read is not split
+	PipeCap   int     // capacity of pipes created during the run (0 = 64 KiB)
 	SchedHash uint64
 	Switches  int64
 	MultiPick int64 // picks with >= 2 candidates
